@@ -101,7 +101,13 @@ fn subs_f64(tape: &[u32], st: &mut Stats) -> CaseResult {
                 for (p, v) in vals {
                     let mut ok = true;
                     let r: f64 = eval_ct(&expected_tree, &p, &mut ok);
-                    if ok && !close(v, r, 1e-9) {
+                    let f = |q: &[f64]| {
+                        let mut o = true;
+                        let x: f64 = eval_ct(&expected_tree, q, &mut o);
+                        o.then_some(x)
+                    };
+                    let Some(sens) = sensitivity(&f, &p) else { continue };
+                    if ok && !close_cond(v, r, 1e-9, sens) {
                         return Err(fail(&format!("C11/f64/{what}/value"), format!("{what} on `{ta}` (`{text}`) at {p:?}: {v}, simultaneous substitution gives {r}"), describe()));
                     }
                 }
